@@ -331,6 +331,31 @@ def run_policy(pol, env, td, **kw):
     return tr, out, err
 
 
+def flipped_start_fn(td_, env_, n):
+    """a custom `select_start_nodes_fn`: the environment's own nodes, copies in reverse order (still each instance's own,
+    feasible and distinct nodes — but not what either built-in rule returns for a given row)"""
+    base = env_.select_start_nodes(td_, num_starts=n)
+    return base.view(n, td_.batch_size[0]).flip(0).reshape(-1)
+
+
+def check_start_rule(ctx, tag: str, key: str, tr: Trace, env, td, custom: bool):
+    """the forced first moves are those of the rule the hook is documented to apply: the custom `select_start_nodes_fn` when
+    given, else the ENVIRONMENT's `select_start_nodes` (per-environment overrides included) — recomputed independently"""
+    if tr.pre is None or tr.pre.get("start") is None:
+        return
+    k = tr.pre["B"] // td.batch_size[0]
+    try:
+        want = flipped_start_fn(td, env, k) if custom else env.select_start_nodes(td, num_starts=k)
+    except Exception:  # noqa: BLE001  (the rule itself fails: C12's)
+        return
+    got = tr.pre["start"]
+    ctx.count("start-rule-checked" + (":custom-fn" if custom else ""))
+    if want.shape != got.shape or not torch.equal(want.to(got.dtype), got):
+        ctx.violation(key, "the forced first moves are not those of " + ("the given select_start_nodes_fn" if custom else
+                      "the environment's own select_start_nodes (a per-environment override is bypassed)"),
+                      {"case": tag, "forced": flat_i(got), "rule": flat_i(want), "num_starts": k})
+
+
 def infeasible_forced_start(tr: Trace, td) -> bool:
     """Was some forced (multi-start / beam) first move masked in the reset state?  (C12's `starts_feasible`.)"""
     if tr.pre is None or tr.pre.get("start") is None:
@@ -424,7 +449,7 @@ def select_best_rows(ctx, tag, B0: int, S: int, rew: List[float], idx: List[int]
 
 
 def c11_case(ctx, kind, env_name, n, B, dt, *, store_all, return_sum, select_best=False, S=None, max_steps=None,
-             opts: Optional[dict] = None, ctor: Optional[dict] = None, default_starts=False):
+             opts: Optional[dict] = None, ctor: Optional[dict] = None, default_starts=False, custom_start=False):
     """`S` with a multistart type: num_starts (None + default_starts: the environment's own number of starts);
     `S` with plain 'sampling': num_samples (multisample).  `opts`: decoding options as call kwargs; `ctor`: at construction."""
     opts = dict(opts or {})
@@ -442,6 +467,8 @@ def c11_case(ctx, kind, env_name, n, B, dt, *, store_all, return_sum, select_bes
         if not default_starts:
             kw["num_starts"] = S
         kw["select_best"] = select_best
+        if custom_start:
+            kw["select_start_nodes_fn"] = flipped_start_fn
     if multisample:
         kw["num_samples"] = S
         kw["select_best"] = select_best
@@ -483,6 +510,8 @@ def c11_case(ctx, kind, env_name, n, B, dt, *, store_all, return_sum, select_bes
             ctx.violation("ll-mask-not-applied", "td['mask'] (steps flagged irrelevant) does not reach get_log_likelihood",
                           {"case": tag, "expected": tl(exp_mask), "got": tl(got)})
     check_opts(ctx, tag, "rollout", tr, pol, opts)
+    if "multistart" in dt:
+        check_start_rule(ctx, tag, "multistart-forced-start-not-the-rule", tr, env, td, custom_start)
     line, meta = decode_request(tr, store_all=store_all, max_steps=(1_000_000 if max_steps is None else max_steps), llmask=exp_mask)
     model = ask_decode(ctx, line, meta)
     picked = None
@@ -940,9 +969,197 @@ def ppo_probe(ctx):
                           {"case": name, "ratio": st["ratio"].tolist(), "exponent": st["exponent"].tolist()})
 
 
+# ---- stepwise PPO policies: act → evaluate ----------------------------------------------------------------------------
+
+STEPWISE = [("jssp", {}), ("fjsp", {})]  # every bundled policy with an act / evaluate pair: L2DPolicy4PPO on JSSP and FJSP
+
+
+def stepwise_case(ctx, env_name: str, ctor: dict, B: int, n: int):
+    """`L2DPolicy4PPO.act` along a whole episode (as `StepwisePPO.shared_step` does), then `L2DPolicy4PPO.evaluate` of every stored
+    step on the same weights (as `StepwisePPO.update` does): the stored log-prob must be the one re-computed, the ratio 1,
+    the entropy that of the distribution the action was drawn from.  Constructor options are non-default."""
+    import rl4co.models.zoo.l2d.policy as LP
+    from rl4co.envs import get_env
+
+    torch.manual_seed(ctx.rng.getrandbits(31))
+    env = get_env(env_name, generator_params=dict(num_jobs=n, num_machines=2))
+    pol = LP.L2DPolicy4PPO(env_name=env_name, embed_dim=32, num_encoder_layers=1, **ctor).eval()
+    tag = f"l2d4ppo/{env_name}/jobs{n}/B{B}/ctor:" + ",".join(f"{k}={v}" for k, v in sorted(ctor.items()))
+    ctx.count(f"stepwise:{env_name}")
+    for k_ in ctor:
+        ctx.count(f"stepwise-opt:{k_}")
+    calls = []
+    phase = ["act"]
+    orig_pl = LP.process_logits
+    names = ("temperature", "top_p", "top_k", "tanh_clipping", "mask_logits")
+
+    def pl(logits, mask=None, *a, **k):
+        out = orig_pl(logits, mask, *a, **k)
+        opts = {"temperature": 1.0, "top_p": 0.0, "top_k": 0, "tanh_clipping": 0, "mask_logits": True}
+        opts.update(dict(zip(names, a)))
+        opts.update({n_: v for n_, v in k.items() if n_ in names})
+        calls.append({"phase": phase[0], "out": out.detach().clone(), "mask": None if mask is None else mask.detach().clone(), "opts": opts})
+        return out
+
+    LP.process_logits = pl
+    steps, dones = [], []
+    try:
+        with torch.no_grad():
+            td = env.reset(batch_size=[B])
+            done0 = td["done"].reshape(-1).clone()
+            while not td["done"].all():
+                td = pol.act(td, env, phase="train")
+                steps.append(td.clone())
+                td = env.step(td)["next"]
+                dones.append(td["done"].reshape(-1).clone())
+                if len(steps) > 400:
+                    raise RuntimeError("episode too long")
+            phase[0] = "evaluate"
+            evals = [pol.evaluate(st.clone()) for st in steps]
+            allst = torch.cat(steps, 0)
+            perm = torch.randperm(allst.batch_size[0])
+            ev_mix = pol.evaluate(allst[perm].clone())
+    except Exception as e:  # noqa: BLE001
+        ctx.violation("stepwise-raised:" + type(e).__name__, f"act / evaluate raised: {short(e, 200)}", {"case": tag})
+        return
+    finally:
+        LP.process_logits = orig_pl
+    T = len(steps)
+    acts_c = [c for c in calls if c["phase"] == "act"]
+    evs_c = [c for c in calls if c["phase"] == "evaluate"]
+    # (a) both call sites hand the same options to process_logits
+    if acts_c and evs_c and acts_c[0]["opts"] != evs_c[0]["opts"]:
+        ctx.violation("stepwise-act-evaluate-options-differ",
+                      "L2DPolicy4PPO.act and .evaluate compute their step distributions with different decoding options, so the stored log-prob of "
+                      "an action is not the one PPO re-evaluates", {"case": tag, "act": acts_c[0]["opts"], "evaluate": evs_c[0]["opts"]})
+    # (b) stored log-prob = gather of the distribution act sampled from (Lean model / Spec on the recorded rows)
+    tr = Trace()
+    N = acts_c[0]["out"].shape[-1]
+    tr.pre = {"start": None, "start_lp": None, "n_forced": 0, "done": done0, "num_starts": 0, "n_env_steps": 0, "B": B, "N": N}
+    tr.steps = [{} for _ in range(T)]
+    tr.env_done = dones
+    tr.sel_calls = [{"selected": st["action"]} for st in steps]
+    tr.lp = [c["out"] for c in acts_c[:T]]
+    tr.amask = [c["mask"] for c in acts_c[:T]]
+    line, meta = decode_request(tr, store_all=False, max_steps=1_000_000)
+    model = ask_decode(ctx, line, meta)
+    for t, st in enumerate(steps):
+        stored = [float(v) for v in st["logprobs"].tolist()]
+        spec = [model["vals"][r][t] for r in range(B)]
+        if stored != spec:
+            ctx.violation("stepwise-stored-logp-not-gathered", "td['logprobs'] stored by act is not the log-prob of the sampled action under the distribution it was sampled from",
+                          {"case": tag, "step": t, "stored": stored, "gathered": spec, "actions": tl(st["action"])})
+            return
+    # (c) evaluate reproduces it; ratio 1; entropy of the same distribution
+    worst = 0.0
+    for t, (st, (lp, _v, ent)) in enumerate(zip(steps, evals)):
+        d = float((lp - st["logprobs"]).abs().max())
+        worst = max(worst, d)
+        if d > 1e-6:
+            r = int((lp - st["logprobs"]).abs().argmax())
+            ctx.violation("stepwise-evaluate-logp-differs",
+                          "evaluate(td) does not reproduce the log-prob act(td) stored for the same action on the same weights: the PPO ratio does not start at one",
+                          {"case": tag, "step": t, "row": r, "action": int(st["action"][r]), "stored_by_act": float(st["logprobs"][r]),
+                           "recomputed_by_evaluate": float(lp[r]), "ratio": float(torch.exp(lp[r] - st["logprobs"][r])),
+                           "act_options": acts_c[0]["opts"], "evaluate_options": evs_c[0]["opts"]})
+            return
+        p_act = acts_c[t]["out"]
+        h_act = -(torch.nan_to_num(p_act, neginf=0.0) * p_act.exp()).sum(-1)
+        if float((h_act - ent).abs().max()) > 1e-5:
+            ctx.violation("stepwise-evaluate-entropy-differs", "the entropy evaluate returns is not that of the distribution act sampled from",
+                          {"case": tag, "step": t, "act": tl(h_act), "evaluate": tl(ent)})
+            return
+    d_mix = float((ev_mix[0] - allst[perm]["logprobs"]).abs().max())
+    if d_mix > 1e-5:
+        ctx.violation("stepwise-evaluate-logp-differs", "evaluate on a shuffled mini-batch of stored steps (as the replay buffer yields them) does not reproduce the stored log-probs",
+                      {"case": tag, "max_abs_dev": d_mix})
+        return
+    ctx.case((tag, tuple(tuple(tl(st["action"])) for st in steps)), nontrivial=T > 1)
+    ctx.count("stepwise-roundtrip-ok")
+    if sum(1 for x in ctx.samples if x.get("kind") == "stepwise") < 1:
+        ctx.sample({"kind": "stepwise", "case": tag, "steps": T, "row0_actions": [int(st["action"][0]) for st in steps][:8],
+                    "row0_logp_stored_by_act": [round(float(st["logprobs"][0]), 6) for st in steps][:8],
+                    "row0_logp_recomputed_by_evaluate": [round(float(e_[0][0]), 6) for e_ in evals][:8], "max_abs_dev": worst,
+                    "options_seen_by_process_logits": acts_c[0]["opts"]}, cap=6)
+
+
+def stepwise_ppo_first_ratio(ctx, policy_kwargs):
+    """the REAL `StepwisePPO` (L2DPPOModel, one Lightning training batch): probability ratios of the first mini-batch of `update`"""
+    from rl4co.envs import get_env
+    from rl4co.models.zoo.l2d.model import L2DPPOModel
+    from rl4co.utils.trainer import RL4COTrainer
+
+    torch.manual_seed(ctx.rng.getrandbits(31))
+    env = get_env("jssp", generator_params=dict(num_jobs=3, num_machines=2), stepwise_reward=True)
+    m = L2DPPOModel(env, policy_kwargs=dict(embed_dim=32, num_encoder_layers=1, **policy_kwargs), batch_size=4, train_data_size=4,
+                    val_data_size=2, test_data_size=2, ppo_epochs=1, mini_batch_size=8)
+    st = {"armed": False, "ratio": None}
+    orig_eval, orig_exp = m.policy.evaluate, torch.exp
+
+    def ev(td):
+        r = orig_eval(td)
+        st["armed"] = st["ratio"] is None
+        return r
+
+    def exp(x, *a, **k):
+        o = orig_exp(x, *a, **k)
+        if st["armed"]:
+            st["armed"] = False
+            st["ratio"] = o.detach().flatten().clone()
+        return o
+
+    m.policy.evaluate = ev
+    torch.exp = exp
+    try:
+        RL4COTrainer(max_epochs=1, accelerator="cpu", devices=1, logger=False, enable_checkpointing=False, enable_progress_bar=False,
+                     enable_model_summary=False, num_sanity_val_steps=0, limit_val_batches=0, precision="32-true",
+                     matmul_precision="highest").fit(m)
+    finally:
+        torch.exp = orig_exp
+        m.policy.evaluate = orig_eval
+    return st["ratio"]
+
+
+def stepwise_ppo_probe(ctx):
+    control_ok = False
+    for name, pk in (("instance-norm, temperature 0.5, tanh_clipping 5", {"normalization": "instance", "temperature": 0.5, "tanh_clipping": 5.0}),
+                     ("L2DPPOModel defaults (batch-norm)", {})):
+        try:
+            ratio = stepwise_ppo_first_ratio(ctx, pk)
+        except Exception as e:  # noqa: BLE001
+            ctx.violation("stepwise-ppo-raised:" + type(e).__name__, f"StepwisePPO training batch raised: {short(e, 200)}", {"case": name})
+            continue
+        if ratio is None:
+            ctx.disagreement("stepwise ppo: no probability ratio observed in update", {"case": name})
+            continue
+        ctx.count("stepwise-ppo-update:" + name)
+        ctx.case(("stepwise-ppo", name, tuple(ratio.tolist())))
+        dev = float((ratio - 1).abs().max())
+        if dev <= 1e-4:
+            control_ok = control_ok or bool(pk)
+            continue
+        bn = (not pk) and control_ok
+        ctx.violation("stepwise-ppo-first-ratio-not-one" + (":batchnorm-minibatch" if bn else ""),
+                      "the probability ratio of the first mini-batch of StepwisePPO.update (weights unchanged) is not 1"
+                      + (": the policy runs in train mode with BatchNorm; act sees one decoding step of the whole batch, evaluate a shuffled mini-batch of mixed steps" if bn else ""),
+                      {"case": name, "ratio": ratio.tolist()[:8]})
+
+
+def run_stepwise(ctx):
+    rng = ctx.rng
+    for env_name, _ in STEPWISE:
+        opts = [{"temperature": 0.5}, {"temperature": 2.0, "tanh_clipping": 5.0}, {"tanh_clipping": 0}, {"temperature": 1.5, "tanh_clipping": 3.0, "mask_logits": True}, {}]
+        k = ctx.budget(3, 5)
+        chosen = opts[:2] + rng.sample(opts[2:], k - 2)
+        for ctor in chosen:
+            stepwise_case(ctx, env_name, ctor, rng.choice([1, 2, 3]), rng.choice([2, 3, 4]))
+    stepwise_ppo_probe(ctx)
+
+
 def run_c11(ctx):
     rng = ctx.rng
     trainer_scope_probe(ctx)
+    run_stepwise(ctx)
     ppo_probe(ctx)
     gll_direct(ctx, ctx.budget(60, 3000))
     pairs = CORE + ZOO + (MORE if ctx.tier == "thorough" or ctx.searching else [])
@@ -968,7 +1185,7 @@ def run_c11(ctx):
                     # consistent for these environments; elsewhere the start rule itself fails, which is C12's)
                     dflt = rng.random() < 0.15 and env_name in ("tsp", "cvrp", "pctsp", "pdp", "sdvrp")
                     res = c11_case(ctx, kind, env_name, n, B, dt, store_all=store_all, return_sum=return_sum, select_best=sb, S=S,
-                                   opts=opts, default_starts=dflt)
+                                   opts=opts, default_starts=dflt, custom_start=(not dflt and rng.random() < 0.25))
                     if res is not None:
                         c11_replica_teacher_forcing(ctx, res)
                 else:
@@ -1057,15 +1274,18 @@ def kept_not_top_witness(tr: Trace, ms, t: int, b: int, B0: int, W: int, N: int)
             "best expansion NOT kept (parent, action, value)": None if best_rest is None else (best_rest[1] // N, best_rest[1] % N, best_rest[0])}
 
 
-def c13_case(ctx, kind, env_name, n, B0, W, opts: Optional[dict] = None):
+def c13_case(ctx, kind, env_name, n, B0, W, opts: Optional[dict] = None, custom_start=False):
     opts = dict(opts or {})
+    if custom_start:
+        opts["select_start_nodes_fn"] = flipped_start_fn
     env, pol = setup(ctx, kind, env_name, n)
     td = fresh_td(ctx, env, B0)
     if (opts.get("top_k") or opts.get("top_p")) and slot_conditioned(ctx, kind, env_name, pol, env, td):
         # evaluate mode scores with strategy 0 only: an action kept under another strategy can be outside its top-k/top-p support,
         # which makes the reference raise instead of showing the (known) slot-conditioning deviation
         opts.pop("top_k", None), opts.pop("top_p", None)
-    tag = f"{kind}/{env_name}/n{n}/B{B0}/W{W}" + ("/kw:" + ",".join(f"{k}={v}" for k, v in sorted(opts.items())) if opts else "")
+    tag = (f"{kind}/{env_name}/n{n}/B{B0}/W{W}" + ("/custom-start-fn" if custom_start else "")
+           + ("/kw:" + ",".join(f"{k}={v}" for k, v in sorted(opts.items()) if k != "select_start_nodes_fn") if opts else ""))
     ctx.count(f"policy:{kind}/{env_name}")
     ctx.count(f"width:{W}")
     ctx.count(f"batch:{B0}")
@@ -1080,6 +1300,7 @@ def c13_case(ctx, kind, env_name, n, B0, W, opts: Optional[dict] = None):
         ctx.violation("beam-raised:" + type(err).__name__, f"beam search raised {type(err).__name__}: {short(err, 200)}", {"case": tag})
         return
     check_opts(ctx, tag, "rollout", tr, pol, opts)
+    check_start_rule(ctx, tag, "beam-forced-start-not-the-rule", tr, env, td, custom_start)
     line, meta = beam_request(tr, B0, W)
     rep = parse_fields(ctx.driver.ask(line))
     if "seq" not in rep:
@@ -1292,7 +1513,7 @@ def run_c13(ctx):
                 widths = sorted(set([2, n] + [rng.choice(widths)]))
             for W in widths:
                 for _ in range(ctx.budget(1, 3)):
-                    c13_case(ctx, kind, env_name, n, rng.choice([2, 3, 2, 1]), W, opts=draw_opts(rng, 0.45))
+                    c13_case(ctx, kind, env_name, n, rng.choice([2, 3, 2, 1]), W, opts=draw_opts(rng, 0.45), custom_start=rng.random() < 0.2)
 
 
 # ------------------------------------------------------------------------------------------------------
@@ -1374,6 +1595,19 @@ C11_THEOREMS = [
     Theorem("Rl4co.Decode.selectBest_factor", "proved", "translator tie: extracted unbatchify factor `self.num_starts`"),
     Theorem("Rl4co.Decode.calculateEntropy_eq", "proved", "translator tie: extracted leading minus of calculate_entropy"),
     Theorem("Rl4co.Decode.ppoRatio_eq", "proved", "translator tie: extracted `ll.sum(-1) - old` (new minus old) of the PPO ratio; the exponent the harness compares on every mini-batch"),
+    Theorem("Rl4co.Decode.stepwise_opts_eq", "proved", "translator tie: the process_logits calls of L2DPolicy4PPO.act and .evaluate receive the same option arguments (extracted)"),
+    Theorem("Rl4co.Decode.stepwise_roundtrip", "proved",
+            "stepwise PPO policies: ∀ network/process_logits, state, action: evaluate recomputes the log-prob act stored, returns the entropy of the distribution act sampled from, ratio = 1"),
+    Theorem("Rl4co.Decode.stepwise_roundtrip_anyopts_counterexample", "proved", "¬ (round trip for call sites with unrelated option lists): the equality of the option lists is what the theorem rests on"),
+    Theorem("Rl4co.Decode.stepwiseRatio_eq", "proved", "translator tie: extracted `torch.exp(logprobs - previous_logp)` of StepwisePPO.update"),
+    Theorem("Rl4co.Decode.forced_move_contributes_zero", "proved", "multi-start: first per-step log-likelihood of every row is 0, first action is the start node, ll = sum over the remaining steps"),
+    Theorem("Rl4co.Decode.entropy_is_policy_entropy", "proved", "the entropy returned with return_entropy=True is −Σ_t Σ_a p·log p of π's step distributions along the returned actions (specEntropy)"),
+    Theorem("Rl4co.Decode.preStartRule_eq", "proved", "translator tie: multi-start forced moves come from env.select_start_nodes, not the generic helper (extracted)"),
+    Theorem("Rl4co.Decode.specVals_length", "proved", "Spec sanity: one value per returned action"),
+    Theorem("Rl4co.Decode.specLL_append", "proved", "Spec sanity (chain rule): ll(as ++ bs) = ll(as) + ll(bs from the state as leads to)"),
+    Theorem("Rl4co.Decode.specLL_nil", "proved", "Spec sanity: the empty sequence has log-likelihood 0"),
+    Theorem("Rl4co.Decode.specLL_all_masked", "proved", "Spec sanity: all steps flagged irrelevant ⇒ log-likelihood 0"),
+    Theorem("Rl4co.Decode.sumLP_eq_none_iff", "proved", "Spec sanity: the log-likelihood is −inf exactly when some step has probability zero"),
     Theorem("Rl4co.Decode.select_best_is_max", "proved", "_select_best: the kept row belongs to the instance and maximises its rewards, for every valid arg-max outcome"),
     Theorem("Rl4co.Decode.select_best_reward", "proved", "its reward is Spec.bestReward of the instance"),
 ]
@@ -1391,6 +1625,10 @@ C13_THEOREMS = [
     Theorem("Rl4co.Decode.best_is_max", "proved", "_select_best_beam: returned row is one of the instance's beams and its reward is the maximum over them"),
     Theorem("Rl4co.Decode.beamDecode_reach", "proved", "policy(…, decode_type='beam_search') only visits reachable states when topk is correct, for every max_steps"),
     Theorem("Rl4co.Decode.validTop_sound", "proved", "the executable check run on every recorded topk outcome implies ValidTop"),
+    Theorem("Rl4co.Decode.beamStartRule_eq", "proved", "translator tie: beam forced moves come from env.select_start_nodes, not the generic helper (extracted)"),
+    Theorem("Rl4co.Decode.beams_mask_confined_env_rule", "proved",
+            "if the ENVIRONMENT's select_start_nodes returns reset-mask-admitted nodes (C12), every beam incl. its forced move is a mask-confined run — whatever the generic helper returns"),
+    Theorem("Rl4co.Decode.beams_distinct_env_rule", "proved", "beams of an instance are pairwise distinct whenever the environment's rule returns distinct nodes per instance"),
     Theorem("Rl4co.Decode.topkLe_eq", "proved", "translator tie: extracted `torch.topk(…, self.beam_width, dim=1)` keeps the beam_width largest"),
     Theorem("Rl4co.Decode.selectedOf_eq", "proved", "translator tie: extracted `selected = topk_ind % num_nodes`"),
     Theorem("Rl4co.Decode.parentOf_eq", "proved", "translator tie: extracted `beam_parent = topk_ind // num_nodes`"),
@@ -1409,7 +1647,7 @@ C13_THEOREMS = [
 ]
 
 register(Unit("C11", "loglik", run_c11, drivers=["drv_loglik"],
-              lean_modules=["Rl4co.Props.C11.Loglik", "Rl4co.Props.C11.LoglikLoop"], theorems=C11_THEOREMS,
+              lean_modules=["Rl4co.Props.C11.Loglik", "Rl4co.Props.C11.LoglikLoop", "Rl4co.Props.C11.LoglikStepwise"], theorems=C11_THEOREMS,
               assumptions=[ORACLE_NOTE, GLUE_NOTE, DET_NOTE, SCOPE_NOTE, COVER_NOTE]))
 C02_THEOREMS = [
     Theorem("Rl4co.Decode.cvrp_decode_loop_terminates", "proved",
@@ -1428,7 +1666,7 @@ register(Unit("C02", "loglik", run_c02, drivers=["drv_loglik"], lean_modules=["R
               assumptions=[ORACLE_NOTE, "the decoding-loop clause of C02 is proved for CVRP and TSP by instantiating Decode.loop_terminates with the families' own "
                            "steps_le / mask_nonempty / done_stable / run_length theorems; for the other families the loop theorem is available with the step bound as a hypothesis",
                            "the selector hypothesis (only mask-admitted actions are emitted) is C10's"]))
-register(Unit("C13", "loglik", run_c13, drivers=["drv_loglik"], lean_modules=["Rl4co.Props.C13.Loglik", "Rl4co.Props.C13.LoglikFindings"], theorems=C13_THEOREMS,
+register(Unit("C13", "loglik", run_c13, drivers=["drv_loglik"], lean_modules=["Rl4co.Props.C13.Loglik", "Rl4co.Props.C13.LoglikFindings", "Rl4co.Props.C13.LoglikStart"], theorems=C13_THEOREMS,
               assumptions=[ORACLE_NOTE, GLUE_NOTE, DET_NOTE, COVER_NOTE,
                            "the property is judged on the real outcome before internals are compared: kept sets against scores re-accumulated independently "
                            "from the recorded policy rows (Lean validTop, per step and instance), returned sequences against the recorded parent chain, returned "
